@@ -30,10 +30,17 @@ def apply_ops(conf, G, ops):
 def check_rejected(conf, hist, op, G, out, alphabet):
     """G = state after the rejected call; returns (violations, counters)"""
     viols = []
-    G0, k = twin_of(conf, hist, op)
+    opk = op[0] if op[0] != 'bulk' else 'bulk-' + op[1]
+    try:
+        G0, k = twin_of(conf, hist, op)
+    except Exception as ex:
+        # the elements that precede the failing one cannot be applied one by one: the bulk call and the
+        # single calls disagree about what is legal
+        return [Violation(PROP, 'trace', {'cls': conf['cls'], 'mode': 'rm' if conf['removal'] else 'acc', 'kind': 'bulk-prefix-not-replayable',
+                                          'exc': type(ex).__name__, 'op': opk}, base.case_of(conf, hist + (op,)),
+                          {'rejected call': U.op_concrete(conf, op), 'raised': out, 'replaying the preceding elements raised': repr(ex)[:200]})], {'rejected_calls': 1}
     s1 = observe.snapshot(G, conf)
     s0 = observe.snapshot(G0, conf)
-    opk = op[0] if op[0] != 'bulk' else 'bulk-' + op[1]
     cnt = {'rejected_calls': 1, 'rejected_' + out: 1, 'rejected_bulk_partial': 1 if k else 0}
     diff = observe.snapshot_diff(s0, s1)
     if diff:
